@@ -184,6 +184,8 @@ structure St' where
   /-- when each worker last registered or sent a heartbeat (what `last_heartbeat` would be without the
   re-stamping of `sync_from_raft`) -/
   trueHb : List (String × Nat) := []
+  /-- the leader's model registry as last dumped (`name=key` entries) -/
+  models : List String := []
 
 def compName : Comp → String
   | .wset => "worker-set" | .status => "worker-status" | .book => "worker-bookkeeping"
@@ -203,10 +205,14 @@ def silentWorkers (st : St') (l : LState) (now : Nat) : List String :=
     | some (_, t) => decide (now - t > l.timeout)
     | none => false).map (·.1)
 
-def finish (st : St') (op? : Option Op) (modelAnswer : String) (implAnswer lDump rDump : String) : St' × String :=
+def finish (st : St') (op? : Option Op) (modelAnswer : String) (implAnswer lDump rDump : String)
+    (localOnly : Bool := false) : St' × String :=
   match parseLDump st.timeout false lDump, parseRDump rDump with
   | some (il, tl), some (ir, tr) =>
-    let model : Sys := match op? with | some op => step st.prev op | none => st.prev
+    -- `localOnly`: the call committed locally and its proposal failed (answer 5xx): no command reached the log
+    let model : Sys := match op? with
+      | some op => if localOnly then { l := stepL st.prev.l st.prev.r op, r := st.prev.r } else step st.prev op
+      | none => st.prev
     -- `pending_rebalance` is not dumped: it does not take part in the comparison
     let impl : Sys := { l := { il with pending := model.l.pending }, r := ir }
     let hb2 := match op? with
@@ -219,7 +225,8 @@ def finish (st : St') (op? : Option Op) (modelAnswer : String) (implAnswer lDump
       | some (.tickSweep now) => (silentWorkers st st.prev.l now).filter fun id =>
           match impl.l.workers.get id with | some w => w.status == WStatus.ready | none => false
       | _ => []
-    let broken := Comp.all.filter fun c => compOk c st.prev st.prevTags && !compOk c impl (tl, tr)
+    let broken := if localOnly then [] else
+      Comp.all.filter fun c => compOk c st.prev st.prevTags && !compOk c impl (tl, tr)
     let isSync := match op? with | some (.tickSync _) => true | _ => false
     let reverted := if isSync then
         Comp.all.filter fun c => compOk c st.prev st.prevTags && !noRevertB c st.prev.l impl.l
@@ -231,7 +238,9 @@ def finish (st : St') (op? : Option Op) (modelAnswer : String) (implAnswer lDump
     let listed := broken.filterMap fun c => match kind? with
       | some k => (knownCell k c).map fun id => (id, c)
       | none => none
-    if !reverted.isEmpty then
+    if localOnly && !(implAnswer.startsWith "refused") then
+      (st2, "JUDGE C38 a change that was applied locally but not proposed was acknowledged to the client")
+    else if !reverted.isEmpty then
       (st2, s!"JUDGE C38 sync_from_raft changed a synchronised component of the view: {reverted.map compName}")
     else if !unlisted.isEmpty then
       (st2, s!"JUDGE C38 the operation left the local view out of sync with the replicated state in: {unlisted.map compName}")
@@ -284,6 +293,26 @@ def step (st : St') (line : String) : St' × String :=
     | none => (st, "")
     | some res =>
     if ws == ["loopshape"] then (st, verdict loopShape res) else
+    if ws.head? == some "modelup" || ws.head? == some "modeldel" || ws.head? == some "msync" || ws.head? == some "fmodels" then
+      -- the model registry: uploads / deletions are proposed (`ModelRegistered` / `ModelRemoved`) and applied locally;
+      -- `sync_from_raft` copies the replicated registry (repaired: it used to ignore it), so a follower shows the leader's
+      match res.splitOn " | " with
+      | [ans, a, b] =>
+        let parse (x : String) : List String := let y := (x.drop 3).toString; if y == "-" then [] else y.splitOn ";"
+        let ma := parse a
+        let mb := parse b
+        let expected : List String := match ws with
+          | ["modelup", n, k] => sortBy (· < ·) (s!"{n}={k}" :: st.models.filter fun e => !(e.startsWith (n ++ "=")))
+          | ["modeldel", n] => st.models.filter fun e => !(e.startsWith (n ++ "="))
+          | _ => st.models
+        let st2 := if ws.head? == some "fmodels" then st else { st with models := ma }
+        if ma != mb then
+          (st2, if ws.head? == some "fmodels"
+            then s!"JUDGE C38 follower {ws.drop 1} shows model registry {mb}, the leader {ma}"
+            else s!"JUDGE C38 the coordinator's model registry {ma} differs from the replicated one {mb}")
+        else (st2, verdict s!"{if ws.head? == some "fmodels" then "ok" else ans} {expected}" s!"{ans} {ma}")
+      | _ => (st, "BADLINE models")
+    else
     if ws.head? == some "fview" then
       match ws, res.splitOn " | " with
       | ["fview", node, now], [ans, ld, fd, rd] =>
@@ -361,6 +390,14 @@ def step (st : St') (line : String) : St' × String :=
       | ["policy", p] => fin (some (.startupPolicy (parsePolicy p))) "ok"
       -- a call that was refused before it changed anything (plan errors): nothing may change
       | "noop" :: _ => fin none ans
+      | "unreplicated" :: "deploy" :: [g, name, results] =>
+        match parseList parseDRes "," results with
+        | some rs => finish st (some (.deploy g name rs)) ans ans ld rd true
+        | none => (st, "BADLINE")
+      | "unreplicated" :: "teardown" :: [g, tasks] =>
+        match parseList parseAt "," tasks with
+        | some ts => finish st (some (.teardown g ts)) ans ans ld rd true
+        | none => (st, "BADLINE")
       | _ => (st, "BADLINE op")
     | _ => (st, "BADLINE result")
 
